@@ -313,11 +313,16 @@ def op_write_read(ctx, st, op, prop, info):
         if judge and in_domain and not out_of_step:
             if getattr(st, "shadow", None) is None:
                 sh = M.State()
-                sh.__dict__.update({k: v for k, v in st.__dict__.items() if k not in ("objs", "shadow", "fs")})
                 sh.objs = {}
-                sh.shadow = None
-                sh.fs = None
                 st.shadow = sh
+            # the shadow state always restarts from the primary's model (range in use, kwargs, …)
+            keep = st.shadow.objs
+            st.shadow.__dict__.update({k: copy.copy(v) if isinstance(v, (dict, set, list)) else v
+                                       for k, v in st.__dict__.items() if k not in ("objs", "shadow", "fs", "peak_cache")})
+            st.shadow.peak_cache = st.peak_cache
+            st.shadow.objs = keep
+            st.shadow.shadow = None
+            st.shadow.fs = None
             st.shadow.objs[which] = obj
         elif getattr(st, "shadow", None) is not None:
             st.shadow.objs.pop(which, None)
